@@ -398,6 +398,8 @@ class Models:
         for _op in ("lt", "le", "gt", "ge"):
             self.prefix_table.append((re.compile(r"^&*Option as PartialOrd::%s$" % _op),
                                       (lambda o: lambda ex, st, fr, c, a, d, r: m_opt_cmp(ex, st, a, o))(_op)))
+        self.prefix_table.append((re.compile(r"^(u8|u16|u32|u64|usize|i32|i64) as Ord::max$"), lambda ex, st, fr, c, a, d, r: m_minmax(a, True)))
+        self.prefix_table.append((re.compile(r"^(u8|u16|u32|u64|usize|i32|i64) as Ord::min$"), lambda ex, st, fr, c, a, d, r: m_minmax(a, False)))
         self.prefix_table.append((re.compile(r"^Option as Ord::max$"), lambda ex, st, fr, c, a, d, r: m_opt_minmax(ex, st, a, True)))
         self.prefix_table.append((re.compile(r"^Option as Ord::min$"), lambda ex, st, fr, c, a, d, r: m_opt_minmax(ex, st, a, False)))
         R(["panicking::assert_failed", "panicking::panic", "panicking::panic_fmt", "option::unwrap_failed",
